@@ -59,7 +59,7 @@ class Ref:
         """t: tensor with 2k axes (k = len(names)); apply op (on the listed subsystems, in
         the listed order) on the row side."""
         k = len(self.names)
-        d = [self.dims[self.names[i]] for i in axes_idx]
+        d = [self.dims[self.names[i % k]] for i in axes_idx]
         opt = np.asarray(op, dtype=complex).reshape(d + d)
         m = len(axes_idx)
         # contract op's input axes with t's row axes
